@@ -587,6 +587,7 @@ class MultiStream(Stream):
         """
         phases = self.phases
         if energy_balance or isinstance(s1, MultiStream) or isinstance(s2, MultiStream):
+            s1.empty(); s2.empty() # All flows are overwritten; old contents may be in phases this stream does not have
             s1.phases = phases
             s2.phases = phases
             for phase in phases: self[phase].split_to(s1[phase], s2[phase], split)
